@@ -737,8 +737,16 @@ func (ar *asyncRunner) start(nArgs int) {
 	ar.promiseCap = r.newPromiseCapability(r.getPromise())
 	sp := r.vm.sp
 	ar.gen.enter()
+	completed := false
+	defer func() {
+		if !completed {
+			// an uncatchable error is unwinding through the function body
+			ar.gen.abortNext()
+		}
+	}()
 	ar.vmCall(r.vm, nArgs)
 	res, resType, ex := ar.gen.step()
+	completed = true
 	ar.step(res, resType == resultNormal, ex)
 	if ex != nil {
 		r.vm.sp = sp - nArgs - 2
@@ -868,30 +876,57 @@ func (g *generator) enterNext() {
 	g.vm.resume(&g.ctx)
 }
 
-func (g *generator) next(v Value) (Value, resultType, *Exception) {
+// abortNext is called (deferred) when a Go panic - an uncatchable error such as an interrupt or a
+// stack overflow - unwinds through a generator/async frame. It removes everything the resumption put
+// on the VM stacks (the frames of the body, the marker frame, the saved context); otherwise they stay
+// behind and the runtime is not reusable.
+func (g *generator) abortNext() {
+	vm := g.vm
+	if g.tryStackLen == 0 || int(g.tryStackLen) > len(vm.tryStack) {
+		return
+	}
+	marker := &vm.tryStack[g.tryStackLen-1]
+	vm.dropStacks(marker.iterLen, marker.refLen)
+	vm.sp = int(marker.sp)
+	vm.callStack = vm.callStack[:marker.callStackLen]
+	vm.tryStack = vm.tryStack[:g.tryStackLen-1]
+	vm.popCtx()
+}
+
+func (g *generator) next(v Value) (res Value, resType resultType, ex *Exception) {
 	g.enterNext()
+	completed := false
+	defer func() {
+		if !completed {
+			g.abortNext()
+		}
+	}()
 	if v != nil {
 		g.vm.push(v)
 	}
-	res, done, ex := g.step()
+	res, resType, ex = g.step()
+	completed = true
 	g.vm.popTryFrame()
 	g.vm.popCtx()
-	return res, done, ex
+	return
 }
 
-func (g *generator) nextThrow(v interface{}) (Value, resultType, *Exception) {
+func (g *generator) nextThrow(v interface{}) (res Value, resType resultType, ex *Exception) {
 	g.enterNext()
-	ex := g.vm.handleThrow(v)
-	if ex != nil {
-		g.vm.popTryFrame()
-		g.vm.popCtx()
-		return nil, resultNormal, ex
+	completed := false
+	defer func() {
+		if !completed {
+			g.abortNext()
+		}
+	}()
+	ex = g.vm.handleThrow(v)
+	if ex == nil {
+		res, resType, ex = g.step()
 	}
-
-	res, resType, ex := g.step()
+	completed = true
 	g.vm.popTryFrame()
 	g.vm.popCtx()
-	return res, resType, ex
+	return
 }
 
 func (g *generatorObject) init(vmCall func(*vm, int), nArgs int) {
@@ -900,9 +935,17 @@ func (g *generatorObject) init(vmCall func(*vm, int), nArgs int) {
 	g.gen.vm = vm
 
 	g.gen.enter()
+	completed := false
+	defer func() {
+		if !completed {
+			// an uncatchable error is unwinding through the generator prologue
+			g.gen.abortNext()
+		}
+	}()
 	vmCall(vm, nArgs)
 
 	_, _, ex := g.gen.step()
+	completed = true
 
 	vm.popTryFrame()
 	if ex != nil {
@@ -1061,8 +1104,16 @@ func (g *generatorObject) _return(v Value) Value {
 	g.gen.returning = v
 	g.state = genStateExecuting
 	g.gen.enterNext()
+	entered := true
+	defer func() {
+		if entered {
+			// an uncatchable error is unwinding through a finally block run by return()
+			g.gen.abortNext()
+		}
+	}()
 	canContinue := g.gen.enterNextFinallyFrame()
 	if !canContinue {
+		entered = false
 		vm := g.gen.vm
 		g.state = genStateCompleted
 
@@ -1081,6 +1132,7 @@ func (g *generatorObject) _return(v Value) Value {
 		return g.val.runtime.createIterResultObject(v, true)
 	}
 	res, done, ex := g.gen.step()
+	entered = false
 	vm := g.gen.vm
 	vm.popTryFrame()
 	vm.popCtx()
